@@ -34,6 +34,26 @@ CLAIMS = {
   "text": "Theorems: C19_all_in_one_eq_steps (the all-in-one command is the same composition of library steps as the documented sequence, equal as soon as a re-opened dataset returns the stored info — the only difference between the two is the re-reading of the info), C19_write_volume_repeatable (running the volume-writing loop twice leaves every valid position reading the same chunk as running it once, for all volumes/chunk sizes, without assuming the writes succeed); exit-status-0 completeness is C13_convert_pointwise / C01_convert_pointwise. The weight of this check is the end-to-end run: 10 (quick) / 300 (thorough) workflows as real subprocesses — all-in-one vs step-by-step (info JSON and decoded voxels at every scale equal), repeated data-writing steps, convert-chunks --copy-info twice, scale-stats interleaved, completeness after exit 0.",
   "note": "The command-level theorem is over abstract library steps (their own correctness is C08/C01/C06); the correspondence for C19 is oracle-only (the two real pipelines against each other and against decoding), not model-vs-implementation. The all-in-one command has no --sharding option, so sharded datasets exercise only the step-by-step half. uint64 averaging (C07 finding) is kept out of the generator.",
   "ref": "DESIGN.md §8 C19"},
+ "C11": {
+  "text": "Theorems over the model of get_chunk_dtype_transformer (NumPy promote/can_cast tables tied exhaustively on every run): C11_int_to_int_exact (every integer pair, every value: result = clamp), C11_float_to_int_nearest (every finite float32/float64 to every unsigned target: nearest, half-to-even, saturating — through Flocq), C11_to_float32_nearest (round-to-nearest-even or +-inf), C11_preserve_input_kept, C11_result_mode_independent, C11_input_after_char (exactly when the caller's buffer is overwritten); C11_float32_overflow_refuted with its guard for the one remaining deviation (finite float64 beyond the float32 range becomes +-inf). Correspondence: all 50 dtype pairs x 2 buffer modes x 6 memory layouts, values at every type limit +-1, 2^k+-1, half-integers, subnormals; bit-exact comparison; oracle = extracted nearest_sat + an independent Fraction restatement.",
+  "note": "IEEE arithmetic is Coq's SpecFloat (executable) related to Flocq 4.1.0 for the real-number statements: theorems through Flocq depend on the standard-library axioms ClassicalDedekindReals.sig_not_dec, sig_forall_dec, FunctionalExtensionality.functional_extensionality_dep, Classical_Prop.classic. C casts of NaN/inf/out-of-range floats are modelled from observation (x86-64).",
+  "ref": "DESIGN.md §8 C11"},
+ "C07": {
+  "text": "Theorems: striding and majority equal their specification for any factors >= 1 and any shape (C07_stride_spec, C07_majority_spec, C07_majority_unique/oracle), shapes are ceil(size/factor) and unsupported factors are refused; averaging on uint8/uint16/uint32 equals the exact mean of the padded block rounded half-to-even for ALL values (C07_avg_exact: every float64 intermediate is exact — via Flocq), extends to uint64 below 2^49 (C07_avg_exact_on_guard), results stay within the contributors' bounds and never wrap (C07_avg_bounds, C07_avg_uint64_top_saturates); the remaining deviations are stated with witnesses: C07_avg_uint64_refuted (float64 precision above 2^53) and C07_avg_float32_refuted (double rounding). Correspondence: shapes 1..9 (+ long axes), C 1..3, all 8 factor triples x 5 dtypes x 5 outside values, factors 1..4 for stride/majority, unsupported factors; bit-exact.",
+  "note": "Same Flocq axioms as C11 for the averaging theorems; outside values must lie on the fixed-point grid stated in C07_avg_exact (covers 0, 1.5, 255, -3).",
+  "ref": "DESIGN.md §8 C07"},
+ "C15": {
+  "text": "Theorems: each of the 48 orientation codes in the tables (regenerated from the live package on every run and compared with the committed coq/generated/Tables.v; a changed table re-runs the proofs) denotes a signed permutation with the documented letter meanings (C15_tables_signed_perm, C15_tables_complete), invert_permutation inverts (C15_invert_permutation), and C15_orientation_pointwise: for ALL sizes, chunk sizes, channel counts and all 48 codes (forward and reversed slice axes) the run succeeds, every output voxel reads the pixel the code designates, every voxel lies in a written chunk and the chunk count equals the grid; C15_group_selection (Python slice semantics of every slice group incl. the last). Correspondence/end-to-end: all 48 codes x 5 slice-count/depth relations x chunk sizes 1..5 x PNG/TIFF grey/RGB x storage options through the real command, scale 0 reassembled and compared with an independent index map.",
+  "note": "scikit-image/Pillow reading of slice files is the oracle input; the pixel value conversion is C11's.",
+  "ref": "DESIGN.md §8 C15"},
+ "C16": {
+  "text": "Theorems: C16_half_voxel over any field (every affine, every non-zero voxel-size triple, every voxel index: the written matrix maps the corner-based centre coordinate (i+1/2) o (k s) to k (A i + t); rotations, shears, flips included) with the executable instance over Q; C16_nifti_to_ng_contract; C16_info_fields_spec (size, channels, resolution = voxel size x 10^6, for 3-D/4-D/RGB), C16_dtype_guess_holds; sharding option acceptance; C16_compact_json_partial (URL form splits back into the entry texts, integer entries print as integers — the float repr round trip is external and tested). End-to-end: 2000 random affines/shapes/dtypes through the real --generate-info, files parsed and the relation checked in exact rational arithmetic with relative tolerance 2^-40.",
+  "note": "Float rounding inside NumPy/nibabel (voxel_sizes uses sqrt) is outside the proof: partial, checked with tolerance.",
+  "ref": "DESIGN.md §8 C16"},
+ "C17": {
+  "text": "Theorems: C17_mesh_roundtrip / write_mesh_roundtrip / layout_spec (the file is the unique byte string the format reader maps to (vertices, triangles); length 4+12nv+12nt), C17_reader_total for ALL byte strings (the reader returns what the format says or the mesh error, never another exception: C17_reader_never_crashes, short header and index >= count rejected), orientation identities over any commutative ring (det of transformed triangle = det R x det, winding flipped exactly when mirroring, mm->nm), C17_vtk_parses_on_guard (the writer's output is accepted by the subset grammar and parses back to the exported mesh), C17_links_exact. Correspondence: meshes empty..300 triangles x 11 dtypes, byte strings from a mutation grammar (truncation at every boundary +-1, index edits n-1/n/n+1/2^32-1), affines det>0/<0/tiny, GIfTI files through the real command, VTK parsed by an independent parser, link tables with 0..13 fragments.",
+  "note": "The header-window length of Neuroglancer's VTK parser is not modelled (not confirmable offline); float evaluation of a determinant near zero is outside the proof.",
+  "ref": "DESIGN.md §8 C17"},
 }
 def main():
     props = [json.loads(l) for l in open(os.path.join(V, "properties.jsonl"))]
